@@ -122,3 +122,80 @@ def layoutOf (S : Schema) (T : String → Bytes → Bytes) (ty : String) (v : Va
   | _, _ => .error .shape
 
 end SymbolVerif.Codec
+
+namespace SymbolVerif.Codec
+
+/-! ### __str__ -/
+
+def hexUpperNat (n : Nat) : String := String.ofList (Nat.toDigits 16 n |>.map Char.toUpper)
+
+def padLeftZeros (width : Nat) (s : String) : String := String.ofList (List.replicate (width - s.length) '0') ++ s
+
+/-- `f'0x{value:X}'` of a Python int -/
+def strPlainInt (i : Int) : String := if i < 0 then "0x-" ++ hexUpperNat i.natAbs else "0x" ++ hexUpperNat i.toNat
+
+/-- `BaseValue.__str__`: `0x` + upper-case hex of the (two's complement) value, zero padded to the byte size -/
+def strBaseValue (w : Nat) (signed : Bool) (i : Int) : String :=
+  let u : Nat := if signed && i < 0 then (i + ((256 ^ w : Nat) : Int)).toNat else i.toNat
+  "0x" ++ padLeftZeros (2 * w) (hexUpperNat u)
+
+/-- `Enum.__str__` / `Flag.__str__` (Python 3.12): `Class.NAME`, composite flags `Class.A|B` in declaration order,
+    a flag value without a name `Class(value)` -/
+def strEnum (ty : String) (bitwise : Bool) (members : List (String × Int)) (i : Int) : String :=
+  match members.find? (·.2 == i) with
+  | some (n, _) => ty ++ "." ++ n
+  | none =>
+    if bitwise && i != 0 then
+      let parts := (members.filter fun (_, v) => v != 0 && (i.toNat &&& v.toNat) == v.toNat)
+      ty ++ "." ++ "|".intercalate (parts.map (·.1))
+    else ty ++ "(" ++ toString i ++ ")"
+
+/-- Python `repr` of a `str` of printable ASCII: double quotes when it contains `'` but no `"`, else single quotes with
+    `'` escaped; backslashes doubled -/
+def pyRepr (s : String) : String :=
+  let cs := s.toList
+  let q : Char := if cs.contains '\'' && !cs.contains '"' then '"' else '\''
+  let body := cs.flatMap fun c => if c == '\\' then ['\\', '\\'] else if c == q then ['\\', c] else [c]
+  String.ofList ([q] ++ body ++ [q])
+
+/-- `f'{list(map(str, xs))}'`: the `repr` of a list of strings -/
+def strList (items : List String) : String := "[" ++ ", ".intercalate (items.map pyRepr) ++ "]"
+
+def strTypeStep (S : Schema) (rec : Rec) (recStr : String → Val → R String) (ty : String) (v : Val) : R String :=
+  match S.find ty, v with
+  | some (.int w s), .int i => pure (strBaseValue w s i)
+  | some (.bytes _), .bytes b => pure (Bytes.toHex b)
+  | some (.enum _ _ bitwise members), .int i => pure (strEnum ty bitwise members i)
+  | some (.struct d), .struct vty vs =>
+    if d.abstract then (if vty == ty then .error .shape else recStr vty v)
+    else if vty != ty then .error .shape else do
+      let render (fs : List Field) : R String := fs.foldlM (fun (acc : String) (f : Field) => do
+        if !f.kind.carries then pure acc else
+        match Val.get vs f.name with
+        | none => throw .missing
+        | some fv =>
+          let present ← condOnObject rec d.fields vs f
+          if !present then pure acc else
+          let rendered ← match f.kind, fv with
+            | .int _ _, .int i => pure (strPlainInt i)
+            | .ref rty _, fv => recStr rty fv
+            | .barray _, .bytes b => pure (hexLower b)
+            | .array elem _ _ _ _, .arr l => do
+              let es ← l.mapM (recStr elem)
+              pure (strList es)
+            | _, _ => throw .shape
+          pure (acc ++ printableName f.name ++ ": " ++ rendered ++ ", ")) ""
+      let base ← if d.base.isSome then do let s ← render (d.fields.take d.inherited); pure ("(" ++ s ++ ")") else pure ""
+      let own ← render (d.fields.drop (if d.base.isSome then d.inherited else 0))
+      pure ("(" ++ base ++ own ++ ")")
+  | some _, _ => .error .shape
+  | none, _ => .error .unknownType
+
+def strN (S : Schema) (T : String → Bytes → Bytes) : Nat → String → Val → R String
+  | 0 => fun _ _ => .error .fuel
+  | n + 1 => strTypeStep S (recN S T (defaultFuel S)) (strN S T n)
+
+/-- `str(value)` -/
+def toStr (S : Schema) (T : String → Bytes → Bytes) (ty : String) (v : Val) : R String := strN S T (defaultFuel S) ty v
+
+end SymbolVerif.Codec
